@@ -26,6 +26,7 @@ From Coq Require Import ZArith List Bool.
 From SP Require Import Base.Result Base.Bytes Base.Crc16 Base.Utf8 Model.PduHeader Spec.PduHeaderSpec
   Model.FileDirective Model.Lv Model.Tlv Spec.TlvSpec Model.Finished Model.Metadata Spec.PduBSpec
   Proofs.FinishedProofs Proofs.MetadataProofs.
+From SP Require Import Proofs.RoundtripLimits.
 Import ListNotations.
 Open Scope Z_scope.
 
@@ -78,6 +79,33 @@ Theorem C06_fin_too_long_refused : forall c q, conf_valid c -> 65535 < fin_dlen 
   exists e, fin_new c q = Err e.
 Proof. exact fin_too_long_refused. Qed.
 Print Assumptions C06_fin_too_long_refused.
+
+(* the limit of the equality clause, stated: a fault location given together with a condition
+   code that has none (NO_ERROR, UNSUPPORTED_CHECKSUM_TYPE) is accepted by the constructor but is
+   not part of the PDU; the decoded object has no fault location and == with the original is
+   False in both directions (the octets and the re-pack still agree, C06_fin_repack).  On the
+   code: FinishedPdu(conf, FinishedParams(NO_ERROR, DATA_COMPLETE, FILE_RETAINED, [],
+   EntityIdTlv(01 02))) packs to 2c 00 02 93 01 02 ff ff ff ff ff ff 05 02; unpack(...) == original
+   is False, original == unpack(...) is False, unpack(...).pack() is the same octets. *)
+Theorem C06_fin_eq_roundtrip_nonstd : forall c q, fin_valid c q -> ~ fin_params_std q ->
+  fin_eq (fin_pdu_of c (fin_norm q)) (fin_pdu_of c q) = Ok false /\
+  fin_eq (fin_pdu_of c q) (fin_pdu_of c (fin_norm q)) = Ok false /\
+  fn_fault (fin_norm q) = None /\ fn_fault q <> None.
+Proof. exact fin_eq_roundtrip_nonstd. Qed.
+Print Assumptions C06_fin_eq_roundtrip_nonstd.
+Example C06_fin_eq_roundtrip_nonstd_example :
+  fin_valid (ex_conf 0 0) ex_fin_nonstd /\ ~ fin_params_std ex_fin_nonstd /\
+  fin_layout (ex_conf 0 0) ex_fin_nonstd = [44; 0; 2; 147; 1; 2; 255; 255; 255; 255; 255; 255; 5; 2] /\
+  exists p p', fin_new (ex_conf 0 0) ex_fin_nonstd = Ok (p, ex_conf 0 0, ex_fin_nonstd) /\
+    fin_unpack (fin_layout (ex_conf 0 0) ex_fin_nonstd) = Ok p' /\
+    fin_eq p' p = Ok false /\ fin_eq p p' = Ok false /\ fin_pack p' = fin_pack p.
+Proof. exact fin_eq_roundtrip_nonstd_example. Qed.
+
+(* an instance of C06_fin_too_long_refused: 260 valid filestore responses of 257 octets each *)
+Example C06_fin_too_long_refused_example :
+  conf_valid (ex_conf 1 0) /\ resp_valid big_resp /\ 65535 < fin_dlen (ex_conf 1 0) fin_too_long_q /\
+  fin_new (ex_conf 1 0) fin_too_long_q = Err EValue.
+Proof. exact fin_too_long_refused_example. Qed.
 
 (* non-vacuity: CRC flag set, two responses (one with a non-ASCII second name), fault location *)
 Example C06_fin_valid_example : fin_valid (ex_conf 1 0) ex_fin /\ fin_params_std ex_fin.
@@ -150,6 +178,19 @@ Theorem C06_md_name_too_long_refused : forall c q o,
   md_new c q o = Err EValue.
 Proof. exact md_name_too_long_refused. Qed.
 Print Assumptions C06_md_name_too_long_refused.
+
+(* equality of the decoded object with the original in BOTH directions *)
+Theorem C06_md_eq_roundtrip_sym : forall c q o,
+  md_eqb (md_decoded c q o) (md_pdu_of c q o) = true /\ md_eqb (md_pdu_of c q o) (md_decoded c q o) = true.
+Proof. exact md_eq_roundtrip_sym. Qed.
+Print Assumptions C06_md_eq_roundtrip_sym.
+
+(* an instance of C06_md_file_size_refused: file size 2^32 with 32-bit fields *)
+Example C06_md_file_size_refused_example :
+  flag (cf_large (h_conf (fd_hdr (md_fdir md_too_large_p)))) /\
+  ~ (0 <= mp_fsize (md_params md_too_large_p) < 256 ^ Z.of_nat (fss_width (h_conf (fd_hdr (md_fdir md_too_large_p))))) /\
+  md_pack md_too_large_p = Err EValue.
+Proof. exact md_file_size_refused_example. Qed.
 
 (* non-vacuity: CRC flag, large file (size 2^32), non-ASCII source name, no destination name, two options *)
 Example C06_md_valid_example : md_valid (ex_conf 1 1) ex_md ex_opts.
